@@ -362,6 +362,50 @@ func runSchedule(cs caseSpec, kv storage.KvStorage, forced []int, rnd *lib.Rand)
 
 // ---------- Coq rendering ----------
 
+// Every record a candidate can write is a function of (candidate, counter, create|update), so the
+// shard header defines each of them once and the cases refer to them by name: Coq spends its time
+// on type-checking byte-string literals, not on evaluating the model.
+var dict = map[string]string{}
+var dictDefs []string
+
+func register(name string, b []byte) {
+	if _, ok := dict[string(b)]; ok {
+		return
+	}
+	dict[string(b)] = name
+	dictDefs = append(dictDefs, fmt.Sprintf("Definition %s : bytes := %s.", name, lib.ElBytes(b)))
+}
+
+func buildDict(maxSeq int) string {
+	register("r_held", lib.ElMarshal(lib.ElRecord("X", 1, 3)))
+	register("r_released", lib.ElMarshal(lib.ElRecord("", 2, 4)))
+	register("r_garbage", []byte("{not json"))
+	register("w_empty", []byte("empty"))
+	for _, id := range append([]string{"X"}, ids...) {
+		register("id_"+id, []byte(id))
+	}
+	for i, id := range ids {
+		for seq := 1; seq <= maxSeq; seq++ {
+			register(fmt.Sprintf("c_%s_%d", id, seq), lib.ElMarshal(lib.ElRecord(id, 100*(i+1)+seq, 0)))
+			register(fmt.Sprintf("u_%s_%d", id, seq), lib.ElMarshal(lib.ElRecord(id, 100*(i+1)+seq, seq)))
+		}
+	}
+	return strings.Join(dictDefs, "\n")
+}
+
+func bytesCoq(b []byte) string {
+	if n, ok := dict[string(b)]; ok {
+		return n
+	}
+	return lib.ElBytes(b)
+}
+func optBytesCoq(b []byte, present bool) string {
+	if !present {
+		return lib.None()
+	}
+	return lib.Some(bytesCoq(b))
+}
+
 func tenvCoq(o opObs) string {
 	if o.TsErr {
 		return "TErr"
@@ -375,22 +419,22 @@ func stepCoq(o opObs) string {
 	case "get":
 		lab = lib.App("LGet", lib.N(uint64(o.Cand)), o.Env, tenvCoq(o))
 	case "create":
-		lab = lib.App("LCreate", lib.N(uint64(o.Cand)), lib.ElBytes([]byte(o.Holder)), lib.ElBytes(o.Bytes), o.Env, tenvCoq(o))
+		lab = lib.App("LCreate", lib.N(uint64(o.Cand)), bytesCoq([]byte(o.Holder)), bytesCoq(o.Bytes), o.Env, tenvCoq(o))
 	case "update":
-		lab = lib.App("LUpdate", lib.N(uint64(o.Cand)), lib.ElBytes([]byte(o.Holder)), lib.ElBytes(o.Bytes), o.Env, tenvCoq(o))
+		lab = lib.App("LUpdate", lib.N(uint64(o.Cand)), bytesCoq([]byte(o.Holder)), bytesCoq(o.Bytes), o.Env, tenvCoq(o))
 	}
-	return lib.App("mkStep", lab, o.Res, lib.Bool(o.TsoRead), lib.ElOptBytes(o.storedB, o.storedOK),
-		lib.Pair(lib.ElBytes([]byte(o.descH)), lib.N(o.descT)))
+	return lib.App("mkStep", lab, o.Res, lib.Bool(o.TsoRead), optBytesCoq(o.storedB, o.storedOK),
+		lib.Pair(bytesCoq([]byte(o.descH)), lib.N(o.descT)))
 }
 
 func caseCoq(r runResult) string {
 	init := lib.None()
 	if r.initOK {
-		h := lib.Some(lib.ElBytes([]byte(r.initDec)))
+		h := lib.Some(bytesCoq([]byte(r.initDec)))
 		if r.initUnd {
 			h = lib.None()
 		}
-		init = lib.Some(lib.App("mkRec", lib.ElBytes(r.initRec), h))
+		init = lib.Some(lib.App("mkRec", bytesCoq(r.initRec), h))
 	}
 	xs := make([]string, len(r.steps))
 	for i, o := range r.steps {
@@ -425,7 +469,7 @@ func main() {
 	args := lib.ParseArgs()
 	rnd := lib.NewRand(args.Seed)
 	mutant := os.Getenv("C14_SELFTEST")
-	w := lib.NewWriter(args, "C14", "c14", "From Coq Require Import String.\nFrom KB Require Import Model.C14Cases.", "c14_case", "c14_check", "c14_oracle", 600)
+	w := lib.NewWriter(args, "C14", "c14", "From Coq Require Import String.\nFrom KB Require Import Model.C14Cases.\n"+buildDict(16), "c14_case", "c14_check", "c14_oracle", 600)
 
 	engines := []string{lib.EngMem, lib.EngBadger, lib.EngTiKV}
 	maxBackends := 36
@@ -525,17 +569,11 @@ func main() {
 			explore(mk(eng, init, "exh-2-short", prog("update"), prog("get", "create")))
 		}
 		// --- exhaustive: 3 candidates x one attempt each ---
-		threeInits := []string{"absent", "held", "released"}
-		if args.Tier == "quick" && eng != lib.EngMem {
-			threeInits = []string{"absent", "held"}
-		}
-		for _, init := range threeInits {
+		for _, init := range []string{"absent", "held", "released"} {
 			explore(mk(eng, init, "exh-3x1", prog("acquire"), prog("acquire"), prog("acquire")))
 		}
-		if args.Tier != "quick" || eng == lib.EngMem {
-			explore(mk(eng, "held", "exh-3x1", prog("get", "update"), prog("get", "update"), prog("get", "update")))
-			explore(mk(eng, "absent", "exh-3x1", prog("get", "create"), prog("get", "create"), prog("acquire")))
-		}
+		explore(mk(eng, "held", "exh-3x1", prog("get", "update"), prog("get", "update"), prog("get", "update")))
+		explore(mk(eng, "absent", "exh-3x1", prog("get", "create"), prog("get", "create"), prog("acquire")))
 
 		// --- random beyond: 2..3 candidates, longer programs, engine faults, random schedules ---
 		kinds := []string{"get", "get", "update", "update", "create", "acquire", "acquire"}
